@@ -1,7 +1,23 @@
 //! C12 — arithmetic, aggregation and boolean kernels are exact or report overflow.
 //!
 //! Reference: exact integer arithmetic (i128 for <=64-bit operands, num-bigint for 128/256-bit), IEEE scalar
-//! operations for floats, Vec<Option<bool>> three-valued logic, sequential folds for aggregates.
+//! operations for floats, Vec<Option<bool>> three-valued logic, sequential folds for aggregates, an own proleptic
+//! Gregorian calendar for date/timestamp +- interval.
+//!
+//! Sub-checks
+//!   int8_grid / int16_grid  every operand pair of the 8-bit (quick) and 16-bit (thorough; quick = boundary right operands)
+//!                           integer types x add/sub/mul (checked+wrapping)/div/rem/neg x array-array / array-scalar /
+//!                           scalar-array; failing pairs sit under null slots, then are unmasked one at a time
+//!   int_sampled             all 8 integer types, boundary-dense operands, all Datum shapes, layouts, Ok and Err outcomes
+//!   i256                    checked/wrapping/overflowing ops, pow, cmp, conversions, strings, bits, shifts vs num-bigint
+//!   decimal                 Decimal32/64/128/256 add/sub/mul/div/rem/neg: result type and exact value per `decimal_op`
+//!   float                   Float16/32/64 ops bitwise equal to the IEEE scalar operation
+//!   agg_grid                sum/sum_checked/product(_checked)/min/max/bit_*/bool_* (+ *_array) on lengths 0..=300 x 10 null patterns
+//!   agg_bytes, agg_encoded  min/max of strings/binaries; sum/min/max through dictionary and run-end accessors
+//!   bool_grid, is_null      and/or/not/and_not/and_kleene/or_kleene/is_null/is_not_null on packed three-valued inputs
+//!   bitwise                 element-wise bitwise kernels
+//!   temporal, temporal_neg  timestamp/date/duration/interval arithmetic listed in `arithmetic_op`
+//!   repro_*                 reproductions of recorded findings (targets of known_findings.json, no generated cases)
 #![allow(clippy::too_many_arguments, clippy::type_complexity, clippy::needless_range_loop)]
 
 use arrow_arith::{aggregate as agg, bitwise as bw, boolean as bk, numeric as num};
@@ -18,7 +34,7 @@ use vp_engine::tape::Tape;
 use vp_engine::{ensure, fail};
 
 /// Generators avoid the shapes of recorded findings (counted with `c.exclude`) unless replaying (`c.strict`).
-const AVOID_KNOWN: bool = false;
+const AVOID_KNOWN: bool = true;
 
 // =================================================================================================
 // small deterministic hash (bulk decisions inside exhaustive grids; seeded from the case tape)
@@ -211,9 +227,6 @@ struct PLay {
     seed: u64,
 }
 impl PLay {
-    fn plain() -> Self {
-        PLay { pre: 0, post: 0, force_validity: false, seed: 0 }
-    }
     fn from_tape(t: &mut Tape) -> Self {
         if !t.bool() {
             return PLay { pre: 0, post: 0, force_validity: t.chance(48), seed: 0 };
@@ -369,9 +382,8 @@ macro_rules! with_int {
 }
 
 /// native-level operations (ArrowNativeTypeOp) against the exact reference
-fn native_check<N: NatI>(op: Op, a: i128, b: i128) -> CaseResult {
+fn native_check_w<N: NatI>(op: Op, a: i128, b: i128, want: Want) -> CaseResult {
     let (x, y) = (N::from_i(a), N::from_i(b));
-    let want = want_int(op, a, b, N::BITS, N::SIGNED);
     let judge_res = |what: &str, r: Result<N, ArrowError>| -> CaseResult {
         match (r, want) {
             (Ok(v), Want::Val(w)) => {
@@ -497,8 +509,9 @@ where
     let avals = &ctx.avals;
     let dt = T::DATA_TYPE;
     // element operations on every pair (the mirrored pair (b, a) is visited by the unit whose right operand is a)
-    for &a in avals {
-        native_check::<T::Native>(op, a, b)?;
+    let wants_ab: Vec<Want> = avals.iter().map(|a| want_int(op, *a, b, bits, signed)).collect();
+    for (i, &a) in avals.iter().enumerate() {
+        native_check_w::<T::Native>(op, a, b, wants_ab[i])?;
     }
     st.evals += n as u64;
     let k = op.kernel();
@@ -517,7 +530,7 @@ where
         for i in 0..n {
             let w = match shape {
                 Shape::SA => want_int(op, b, avals[i], bits, signed),
-                _ => want_int(op, avals[i], b, bits, signed),
+                _ => wants_ab[i],
             };
             codes.push(code_of(w));
             let x = h(sseed, i as u64);
@@ -582,7 +595,7 @@ where
         let res = no_panic(&what, || call(k, shape, &la, &ra))?;
         let out = match res {
             Ok(o) => o,
-            Err(e) => fail!(format!("{}:err-under-null", sig), "{}: Err({}) although every failing row is under a null slot (b = {})", what, e, b),
+            Err(e) => fail!(format!("{}:err-spurious", sig), "{}: Err({}) but no valid row can fail: every failing operand pair is under a null slot (b = {})", what, e, b),
         };
         ensure!(out.data_type() == &dt && out.len() == n, format!("{}:type", sig), "{}: result type {} len {}", what, out.data_type(), out.len());
         let o = out.as_primitive::<T>();
@@ -674,7 +687,7 @@ where
     if let Some(w) = judge(what, &res, &rows)? {
         cmp_int::<T>(what, res.as_ref().unwrap(), &w, &dt)?;
     } else {
-        fail!(format!("{}:err-under-null", what), "{}: Err although every failing row is under a null slot", what);
+        fail!(format!("{}:err-spurious", what), "{}: Err although every failing value is under a null slot", what);
     }
     st.evals += n as u64;
     for e in errs {
@@ -692,11 +705,11 @@ where
 /// boundary-dense right operands of a 16-bit type (quick tier)
 fn boundary16(signed: bool) -> Vec<i128> {
     let (lo, hi) = int_range(16, signed);
-    let mut v = vec![lo, lo + 1, hi, hi - 1, 0, 1, 2, 3, 181, 182, 255, 256, 257, hi / 2, hi / 2 + 1];
+    let mut v = vec![lo, lo + 1, lo + 2, hi, hi - 1, hi - 2, 0, 1, 2, 3, 10, 100, 127, 128, 129, 181, 182, 255, 256, 257, 1000, 10000, hi / 2, hi / 2 + 1, hi / 3];
     if signed {
-        v.extend([-1, -2, -181, -182, -256, lo / 2, lo / 2 - 1]);
+        v.extend([-1, -2, -3, -10, -128, -129, -181, -182, -255, -256, -257, lo / 2, lo / 2 - 1, lo / 2 + 1, -10000]);
     } else {
-        v.extend([32767, 32768, 65280]);
+        v.extend([32767, 32768, 32769, 65280, 4096, 4095]);
     }
     v.sort();
     v.dedup();
@@ -899,7 +912,6 @@ struct IntCase {
     n: usize,
     garbage_would_err: bool,
     near_boundary: bool,
-    want_err: bool,
 }
 
 /// generate operand columns for a binary integer-like operation given the per-row semantics `sem`
@@ -986,7 +998,7 @@ fn gen_int_case(t: &mut Tape, op: Op, bits: u32, signed: bool, rbits: u32, rsign
             near = true;
         }
     }
-    IntCase { lv, lvalid, rv, rvalid, shape, n, garbage_would_err, near_boundary: near, want_err }
+    IntCase { lv, lvalid, rv, rvalid, shape, n, garbage_would_err, near_boundary: near }
 }
 
 fn short_rows(ic: &IntCase) -> serde_json::Value {
@@ -1101,7 +1113,6 @@ where
         cmp_int::<T>(&what, res.as_ref().unwrap(), &w, &dt)?;
         vp_engine::validate::check_valid(res.as_ref().unwrap().as_ref(), "kernel-result")?;
     }
-    let _ = ic.want_err;
     c.evals(ic.n as u64 + 1);
     Ok(())
 }
@@ -1457,7 +1468,9 @@ fn sub_i256(c: &mut Case) -> CaseResult {
     } else {
         let want = if fits_big(&a, 64) { Some(i64::try_from(&a).unwrap()) } else { None };
         let got = ToPrimitive::to_i64(&x);
-        ensure!(got == want, "i256.ToPrimitive::to_i64", "ToPrimitive::to_i64({}) = {:?} expected {:?}", a, got, want);
+        // the recorded finding lives exactly in "fits i128 but not i64"
+        let sig = if x.to_i128().is_some() && !fits_big(&a, 64) { "i256.ToPrimitive::to_i64:fits-i128-not-i64" } else { "i256.ToPrimitive::to_i64" };
+        ensure!(got == want, sig, "ToPrimitive::to_i64({}) = {:?} expected {:?}", a, got, want);
     }
     let want = u64::try_from(&a).ok();
     let got = ToPrimitive::to_u64(&x);
@@ -1615,6 +1628,7 @@ fn gen_dec_value(t: &mut Tape, p: i32, bits: u32) -> BigInt {
             if t.bool() { -v } else { v }
         }
         6 => BigInt::from(t.range(-1000, 1000)),
+        8 => BigInt::from(t.range(-3, 3)),
         // beyond the declared precision, up to the native limits (arrays do not enforce precision)
         7 => {
             if t.chance(80) {
@@ -1642,10 +1656,23 @@ where
     let op = *t.pick(&[DOp::Add, DOp::Sub, DOp::Mul, DOp::Div, DOp::Rem, DOp::Add, DOp::Div]);
     let (p1, s1) = gen_dec_type(t, maxp);
     let (mut p2, mut s2) = gen_dec_type(t, maxp);
+    let (mut p1, mut s1) = (p1, s1);
     if t.chance(70) {
         // same scale: the fast path without rescaling
         s2 = s1;
         p2 = p2.max(s2).max(1);
+    } else if t.chance(if op == DOp::Rem { 48 } else { 5 }) {
+        // widest possible scale gap: 10^(s_max - s_min) does not fit the native type
+        let neg = -(1 + t.below(4) as i32);
+        if t.bool() {
+            s1 = neg;
+            p2 = maxp;
+            s2 = maxp;
+        } else {
+            s2 = neg;
+            p1 = maxp;
+            s1 = maxp;
+        }
     }
     let mut excluded = false;
     if AVOID_KNOWN && !c.strict && op == DOp::Rem {
@@ -1823,7 +1850,9 @@ where
                     let g = a.value(i).to_big();
                     let w = rows[i].exact.as_ref().unwrap();
                     let (il, ir) = row_index(shape, i);
-                    ensure!(g == *w, format!("{}:value", what), "{}: row {}: {} ({}) , {} ({}) = {} expected {} at scale {}", what, i, lv[il], ldt, rv[ir], rdt, g, w, plan.rs);
+                    // the recorded finding lives exactly where rem's 10^k multiplier does not fit the native type
+                    let sig = if op == DOp::Rem && (!fits_big(&plan.lmul, bits) || !fits_big(&plan.rmul, bits)) { "dec.rem:value-with-wrapped-pow10".to_string() } else { format!("{}:value", what) };
+                    ensure!(g == *w, sig, "{}: row {}: {} ({}) , {} ({}) = {} expected {} at scale {}", what, i, lv[il], ldt, rv[ir], rdt, g, w, plan.rs);
                 }
             }
         }
@@ -2351,7 +2380,8 @@ where
         _ => 0x7ff0_0000_0000_0000,
     };
     let signbit = 1u64 << (fb - 1);
-    let int_mode = h(seed, 3) % 2 == 0;
+    let fmode = h(seed, 3) % 4;
+    let int_mode = fmode < 2;
     let span: i64 = match fb {
         16 => 6,
         32 => 1 << 14,
@@ -2371,7 +2401,10 @@ where
                 ints[i] = v;
                 conv(v as f64)
             } else {
-                T::Native::of_bits(gen_fbits(&mut tape, fb))
+                let b = gen_fbits(&mut tape, fb);
+                // negative NaNs (where the two documented orders disagree) only in a quarter of the cases
+                let v = T::Native::of_bits(b);
+                if fmode == 2 && v.nan() { T::Native::of_bits(b & !signbit) } else { v }
             }
         })
         .collect();
@@ -2417,6 +2450,8 @@ where
     }
     if neg_nan {
         c.class("float-minmax:negative-nan-lenient");
+    } else if !int_mode && idx.iter().any(|i| vals[*i].nan()) {
+        c.class("float-minmax:total-order-with-nan");
     }
     c.evals(4);
     Ok(())
@@ -3322,8 +3357,277 @@ fn sub_temporal_neg(c: &mut Case) -> CaseResult {
 }
 
 // =================================================================================================
+// sub-check 12: element-wise bitwise kernels (null exactly where an input is null, value = the bit operation)
+fn run_bitwise<T: ArrowPrimitiveType>(c: &mut Case) -> CaseResult
+where
+    T::Native: NatI
+        + std::ops::BitAnd<Output = T::Native>
+        + std::ops::BitOr<Output = T::Native>
+        + std::ops::BitXor<Output = T::Native>
+        + std::ops::Not<Output = T::Native>
+        + num_traits::WrappingShl<Output = T::Native>
+        + num_traits::WrappingShr<Output = T::Native>,
+{
+    let (bits, signed) = (T::Native::BITS, T::Native::SIGNED);
+    let dt = T::DATA_TYPE;
+    let t = &mut c.tape;
+    let n = gen_case_len(t);
+    let null_p = *t.pick(&[0u32, 32, 128]);
+    let which = t.below(12);
+    let shift = which >= 8;
+    let lv: Vec<i128> = (0..n).map(|_| gen_int(t, bits, signed)).collect();
+    let rv: Vec<i128> = (0..n).map(|_| if shift { t.below(bits as usize) as i128 } else { gen_int(t, bits, signed) }).collect();
+    let lvalid: Vec<bool> = (0..n).map(|_| !t.chance(null_p)).collect();
+    let rvalid: Vec<bool> = (0..n).map(|_| !t.chance(null_p)).collect();
+    let sc = if shift { t.below(bits as usize) as i128 } else { gen_int(t, bits, signed) };
+    let la_ref = mk_int::<T>(&lv, &lvalid, &PLay::from_tape(t), &dt);
+    let ra_ref = mk_int::<T>(&rv, &rvalid, &PLay::from_tape(t), &dt);
+    let la = la_ref.as_primitive::<T>();
+    let ra = ra_ref.as_primitive::<T>();
+    let s = T::Native::from_i(sc);
+    let (name, res, f, binary): (&str, Result<PrimitiveArray<T>, ArrowError>, Box<dyn Fn(i128, i128) -> i128>, bool) = match which {
+        0 => ("bitwise_and", bw::bitwise_and(la, ra), Box::new(|a, b| a & b), true),
+        1 => ("bitwise_or", bw::bitwise_or(la, ra), Box::new(|a, b| a | b), true),
+        2 => ("bitwise_xor", bw::bitwise_xor(la, ra), Box::new(|a, b| a ^ b), true),
+        3 => ("bitwise_and_not", bw::bitwise_and_not(la, ra), Box::new(|a, b| a & !b), true),
+        4 => ("bitwise_not", bw::bitwise_not(la), Box::new(|a, _| !a), false),
+        5 => ("bitwise_and_scalar", bw::bitwise_and_scalar(la, s), Box::new(move |a, _| a & sc), false),
+        6 => ("bitwise_or_scalar", bw::bitwise_or_scalar(la, s), Box::new(move |a, _| a | sc), false),
+        7 => ("bitwise_xor_scalar", bw::bitwise_xor_scalar(la, s), Box::new(move |a, _| a ^ sc), false),
+        8 => ("bitwise_shift_left", bw::bitwise_shift_left(la, ra), Box::new(|a, b| a << b), true),
+        9 => ("bitwise_shift_right", bw::bitwise_shift_right(la, ra), Box::new(|a, b| a >> b), true),
+        10 => ("bitwise_shift_left_scalar", bw::bitwise_shift_left_scalar(la, s), Box::new(move |a, _| a << sc), false),
+        _ => ("bitwise_shift_right_scalar", bw::bitwise_shift_right_scalar(la, s), Box::new(move |a, _| a >> sc), false),
+    };
+    c.describe(json!({"kernel": name, "type": format!("{}", dt), "len": n, "scalar": sc.to_string()}));
+    c.class(format!("kernel:{}", name));
+    let want: Vec<Option<i128>> = (0..n).map(|i| if lvalid[i] && (!binary || rvalid[i]) { Some(trunc(f(lv[i], rv[i]), bits, signed)) } else { None }).collect();
+    if want.iter().any(|w| w.is_none()) && want.iter().any(|w| w.is_some()) {
+        c.nontrivial();
+    }
+    match res {
+        Err(e) => fail!(format!("{}:err", name), "{}: Err({}) on equal-length inputs", name, e),
+        Ok(out) => {
+            let out: ArrayRef = Arc::new(out);
+            cmp_int::<T>(name, &out, &want, &dt)?;
+        }
+    }
+    c.evals(n as u64);
+    Ok(())
+}
+fn sub_bitwise(c: &mut Case) -> CaseResult {
+    let ti = c.tape.below(8);
+    macro_rules! m {
+        ($T:ty) => {
+            run_bitwise::<$T>(c)
+        };
+    }
+    with_int!(ti, m)
+}
+
+// =================================================================================================
+// sub-check 13: sum/min/max through dictionary and run-end accessors (`*_array` kernels)
+fn agg_encoded_check<V: ArrowPrimitiveType, A: ArrayAccessor<Item = V::Native> + Copy>(c: &mut Case, acc: A, vals: &[Option<i128>], ree: bool, sliced_ree: bool) -> CaseResult
+where
+    V::Native: NatI,
+{
+    let (bits, signed) = (V::Native::BITS, V::Native::SIGNED);
+    let vs: Vec<i128> = vals.iter().flatten().copied().collect();
+    let any = !vs.is_empty();
+    let mut accu: i128 = 0;
+    let mut prefix_ok = true;
+    for v in &vs {
+        accu += v;
+        if !fits(accu, bits, signed) {
+            prefix_ok = false;
+        }
+    }
+    if ree {
+        // run-end arrays are summed run by run (value * run length): an overflowing product of a maximal logical run, or a
+        // run length that does not fit the value type, may be reported although every row-wise partial sum fits
+        let (_, hi) = int_range(bits, signed);
+        if vals.len() as i128 > hi {
+            prefix_ok = false;
+        }
+        let mut i = 0;
+        while i < vals.len() {
+            let mut j = i;
+            while j < vals.len() && vals[j] == vals[i] {
+                j += 1;
+            }
+            if let Some(v) = vals[i] {
+                if !fits(v * (j - i) as i128, bits, signed) {
+                    prefix_ok = false;
+                }
+            }
+            i = j;
+        }
+    }
+    let total = if fits(accu, bits, signed) { Some(accu) } else { None };
+    let want_sum = if any { Some(trunc(accu, bits, signed)) } else { None };
+    let g = no_panic("sum_array", || agg::sum_array::<V, _>(acc))?.map(|v| v.to_i());
+    // the recorded finding lives exactly in "run-end array with a non-zero slice offset"
+    ensure!(g == want_sum, if sliced_ree { "sum_array:sliced-run-end-value" } else { "sum_array:encoded-value" }, "sum_array = {:?} expected {:?}", g, want_sum);
+    let r = no_panic("sum_array_checked", || agg::sum_array_checked::<V, _>(acc))?.map(|o| o.map(|v| v.to_i()));
+    let cls = judge_checked(if sliced_ree { "sum_array_checked(sliced-run-end)" } else { "sum_array_checked" }, r, any, total, prefix_ok)?;
+    c.class(format!("sum_array_checked:{}", cls));
+    let g = no_panic("min_array", || agg::min_array::<V, _>(acc))?.map(|v| v.to_i());
+    ensure!(g == vs.iter().min().copied(), "min_array:encoded-value", "min_array = {:?} expected {:?}", g, vs.iter().min());
+    let g = no_panic("max_array", || agg::max_array::<V, _>(acc))?.map(|v| v.to_i());
+    ensure!(g == vs.iter().max().copied(), "max_array:encoded-value", "max_array = {:?} expected {:?}", g, vs.iter().max());
+    c.evals(4);
+    Ok(())
+}
+
+fn sub_agg_encoded(c: &mut Case) -> CaseResult {
+    use vp_engine::model::{LField, LType, LValue};
+    use vp_engine::r#gen::gen_len;
+    use vp_engine::realise::{realise, Lay};
+    let t = &mut c.tape;
+    let vbits = *t.pick(&[8u8, 32, 64]);
+    let vty = LType::Int { bits: vbits, signed: true };
+    let ree = t.chance(100);
+    let kbits = *t.pick(&[8u8, 16, 32, 64]);
+    let ksigned = t.bool();
+    let rbits = *t.pick(&[16u8, 32, 64]);
+    let ty = if ree {
+        LType::Ree { rbits, value: Box::new(LField::new("values", vty.clone(), true)) }
+    } else {
+        LType::Dict { kbits, ksigned, value: Box::new(vty.clone()) }
+    };
+    let n = match t.below(4) {
+        0 => gen_len(t),
+        1 => 100 + t.below(200),
+        _ => t.below(40),
+    };
+    let pool: Vec<i128> = (0..1 + t.below(6)).map(|_| if t.chance(100) { gen_int(t, vbits as u32, true) } else { t.range(-9, 9) as i128 }).collect();
+    let null_p = *t.pick(&[0u32, 24, 96, 256]);
+    let mut col: Vec<LValue> = Vec::with_capacity(n);
+    for i in 0..n {
+        if i > 0 && t.chance(150) {
+            let prev = col[i - 1].clone();
+            col.push(prev);
+        } else if t.chance(null_p) {
+            col.push(LValue::Null);
+        } else {
+            col.push(LValue::Int(*t.pick(&pool)));
+        }
+    }
+    // known finding: the run-end sum kernels apply the slice offset twice -> wrong sums for sliced run arrays
+    let mut slice = t.bool();
+    let mut excluded = false;
+    if ree && slice && AVOID_KNOWN && !c.strict {
+        slice = false;
+        excluded = true;
+    }
+    let lay = Lay { fancy: true, dict_value_nulls: false, slice_chance: if slice { 255 } else { 0 } };
+    let arr = no_panic("realise", || realise(t, &ty, &col, true, &lay))?;
+    if excluded {
+        c.exclude("ree-sum-sliced-offset");
+    }
+    c.class(if slice { "layout:padded+sliced" } else { "layout:unsliced" });
+    let sliced_ree = ree && arr.offset() > 0;
+    let vals: Vec<Option<i128>> = col.iter().map(|v| if let LValue::Int(i) = v { Some(*i) } else { None }).collect();
+    c.describe(json!({"type": format!("{}", ty.arrow()), "len": n, "values": vals.iter().take(12).map(|v| format!("{:?}", v)).collect::<Vec<_>>()}));
+    c.class(if ree { "encoding:run-end" } else { "encoding:dictionary" });
+    c.class(format!("value-bits:{}", vbits));
+    let nn = vals.iter().filter(|v| v.is_none()).count();
+    if n > 64 && nn > 0 && nn < n {
+        c.class("more-than-64-values-with-nulls");
+        c.nontrivial();
+    }
+    macro_rules! with_v {
+        ($m:ident) => {
+            match vbits {
+                8 => $m!(Int8Type),
+                32 => $m!(Int32Type),
+                _ => $m!(Int64Type),
+            }
+        };
+    }
+    if ree {
+        macro_rules! go {
+            ($V:ty) => {
+                match rbits {
+                    16 => agg_encoded_check::<$V, _>(c, arr.as_run::<Int16Type>().downcast::<PrimitiveArray<$V>>().unwrap(), &vals, true, sliced_ree),
+                    32 => agg_encoded_check::<$V, _>(c, arr.as_run::<Int32Type>().downcast::<PrimitiveArray<$V>>().unwrap(), &vals, true, sliced_ree),
+                    _ => agg_encoded_check::<$V, _>(c, arr.as_run::<Int64Type>().downcast::<PrimitiveArray<$V>>().unwrap(), &vals, true, sliced_ree),
+                }
+            };
+        }
+        with_v!(go)
+    } else {
+        macro_rules! go {
+            ($V:ty) => {
+                match (kbits, ksigned) {
+                    (8, true) => agg_encoded_check::<$V, _>(c, arr.as_dictionary::<Int8Type>().downcast_dict::<PrimitiveArray<$V>>().unwrap(), &vals, false, false),
+                    (16, true) => agg_encoded_check::<$V, _>(c, arr.as_dictionary::<Int16Type>().downcast_dict::<PrimitiveArray<$V>>().unwrap(), &vals, false, false),
+                    (32, true) => agg_encoded_check::<$V, _>(c, arr.as_dictionary::<Int32Type>().downcast_dict::<PrimitiveArray<$V>>().unwrap(), &vals, false, false),
+                    (64, true) => agg_encoded_check::<$V, _>(c, arr.as_dictionary::<Int64Type>().downcast_dict::<PrimitiveArray<$V>>().unwrap(), &vals, false, false),
+                    (8, false) => agg_encoded_check::<$V, _>(c, arr.as_dictionary::<UInt8Type>().downcast_dict::<PrimitiveArray<$V>>().unwrap(), &vals, false, false),
+                    (16, false) => agg_encoded_check::<$V, _>(c, arr.as_dictionary::<UInt16Type>().downcast_dict::<PrimitiveArray<$V>>().unwrap(), &vals, false, false),
+                    (32, false) => agg_encoded_check::<$V, _>(c, arr.as_dictionary::<UInt32Type>().downcast_dict::<PrimitiveArray<$V>>().unwrap(), &vals, false, false),
+                    _ => agg_encoded_check::<$V, _>(c, arr.as_dictionary::<UInt64Type>().downcast_dict::<PrimitiveArray<$V>>().unwrap(), &vals, false, false),
+                }
+            };
+        }
+        with_v!(go)
+    }
+}
+
+// =================================================================================================
+// reproductions of recorded findings (targets of known_findings.json; zero generated cases)
+
+/// `<i256 as num_traits::ToPrimitive>::to_i64` returns the low 64 bits for values that fit i128 but not i64 when bits
+/// 63 and 127 agree (e.g. 2^64 + 5 -> Some(5)); `cast(Decimal256 -> Int64/Int32)` goes through it via NumCast.
+fn repro_i256_to_i64(c: &mut Case) -> CaseResult {
+    use num_traits::ToPrimitive;
+    c.describe(json!({"value": "2^64 + 5 as i256", "call": "num_traits::ToPrimitive::to_i64"}));
+    let v = i256::from_parts((1u128 << 64) + 5, 0);
+    let got = ToPrimitive::to_i64(&v);
+    ensure!(got.is_none(), "i256.ToPrimitive::to_i64:fits-i128-not-i64", "ToPrimitive::to_i64(2^64 + 5) = {:?} expected None", got);
+    let v = i256::from_i128(-(1i128 << 64) - 5);
+    let got = ToPrimitive::to_i64(&v);
+    ensure!(got.is_none(), "i256.ToPrimitive::to_i64:fits-i128-not-i64", "ToPrimitive::to_i64(-2^64 - 5) = {:?} expected None", got);
+    Ok(())
+}
+
+/// decimal `rem` rescales both operands with `pow_wrapping`: when 10^(max(s1,s2) - s) does not fit the native type
+/// the multiplier wraps silently and a wrong remainder is returned instead of an error.
+fn repro_decimal_rem_pow_wrapping(c: &mut Case) -> CaseResult {
+    c.describe(json!({"call": "rem(Decimal32(5,-1) [1], Decimal32(9,9) [999999999])", "exact": "10 mod 0.999999999 = 0.000000010"}));
+    let l = Decimal32Array::from(vec![1]).with_precision_and_scale(5, -1).unwrap();
+    let r = Decimal32Array::from(vec![999_999_999]).with_precision_and_scale(9, 9).unwrap();
+    // exact: 1e1 = 10_000_000_000 units of 1e-9; 10_000_000_000 mod 999_999_999 = 10
+    match no_panic("dec.rem", || num::rem(&l, &r))? {
+        Err(_) => Ok(()), // reporting the rescale overflow is the documented alternative
+        Ok(out) => {
+            let g = out.as_primitive::<Decimal32Type>().value(0);
+            ensure!(g == 10, "dec.rem:value-with-wrapped-pow10", "rem(1e1 as Decimal32(5,-1), 0.999999999 as Decimal32(9,9)) = {} x 1e-9 expected 10 x 1e-9 (10^10 wrapped to 1410065408)", g);
+            Ok(())
+        }
+    }
+}
+
+/// `sum_array` / `sum_array_checked` on a sliced RunArray: `ree::fold` clamps the already offset-adjusted run ends of
+/// `RunEndBuffer::sliced_values()` into `[offset, offset+len]` again, so the first run is counted `offset` rows long.
+fn repro_ree_sum_sliced(c: &mut Case) -> CaseResult {
+    c.describe(json!({"array": "RunArray<Int32>(run_ends [3,4,13], values Int32 [7,-9,0]).slice(3, 10)", "logical": "[-9, 0 x 9]"}));
+    let run_ends = Int32Array::from(vec![3, 4, 13]);
+    let values = Int32Array::from(vec![7, -9, 0]);
+    let ra = RunArray::<Int32Type>::try_new(&run_ends, &values).unwrap().slice(3, 10);
+    let typed = ra.downcast::<Int32Array>().unwrap();
+    let logical: Vec<i32> = (0..typed.len()).map(|i| typed.value(i)).collect();
+    ensure!(logical.iter().map(|x| *x as i64).sum::<i64>() == -9, "repro:setup", "logical content {:?}", logical);
+    let g = no_panic("sum_array", || agg::sum_array::<Int32Type, _>(typed))?;
+    ensure!(g == Some(-9), "sum_array:sliced-run-end-value", "sum_array over the logical values {:?} = {:?} expected Some(-9)", logical, g);
+    let g = no_panic("sum_array_checked", || agg::sum_array_checked::<Int32Type, _>(typed))?;
+    ensure!(matches!(g, Ok(Some(-9))), "sum_array:sliced-run-end-value", "sum_array_checked = {:?} expected Ok(Some(-9))", g);
+    Ok(())
+}
+
+// =================================================================================================
 fn main() {
-    let _ = bw::bitwise_not::<Int8Type>;
     Check::new(
         "C12",
         "exploration",
@@ -3336,15 +3640,20 @@ fn main() {
     .assume("float min/max follow IEEE totalOrder; with a negative NaN among the valid values any valid value is accepted (docs of min/max and of MIN/MAX_TOTAL_ORDER disagree there)")
     .sub(Sub::new("int8_grid", 0, 0, sub_int8_grid).enumerate(132, 132).require(&["has-overflowing-pairs", "type:signed", "type:unsigned"]))
     .sub(Sub::new("int16_grid", 0, 0, sub_int16_grid).enumerate(20, 20 + 2 * 8 * 1024).require(&["has-overflowing-pairs"]))
-    .sub(Sub::new("int_sampled", 12000, 400000, sub_int_sampled).tape(256, 6000).require(&["null-slot-garbage-would-fail", "result-at-type-boundary", "outcome:must-err", "outcome:must-succeed", "shape:array-scalar", "shape:scalar-array", "shape:scalar-scalar", "neg-unsigned-rejected"]))
-    .sub(Sub::new("i256", 20000, 600000, sub_i256).tape(128, 400).require(&["result-at-type-boundary", "a:needs-high-limb", "b:needs-high-limb"]))
-    .sub(Sub::new("decimal", 12000, 400000, sub_decimal).tape(256, 4000).require(&["null-slot-garbage-would-fail", "result-at-type-boundary", "outcome:must-err", "outcome:ok", "scales:differ", "scale:negative", "width:32", "width:64", "width:128", "width:256", "op:dec.neg"]))
-    .sub(Sub::new("float", 6000, 200000, sub_float).tape(256, 6000).require(&["result:nan-inf-zero-or-subnormal", "type:Float16", "type:Float32", "type:Float64"]))
-    .sub(Sub::new("agg_grid", 0, 0, sub_agg_grid).enumerate(301 * N_PATTERNS, 301 * N_PATTERNS * 12).require(&["more-than-64-values-with-nulls", "sum_checked:err", "sum_checked:ok"]))
-    .sub(Sub::new("agg_bytes", 3000, 60000, sub_agg_bytes).tape(256, 6000))
+    .sub(Sub::new("int_sampled", 250000, 2000000, sub_int_sampled).tape(256, 6000).require(&["null-slot-garbage-would-fail", "result-at-type-boundary", "outcome:must-err", "outcome:must-succeed", "shape:array-scalar", "shape:scalar-array", "shape:scalar-scalar", "neg-unsigned-rejected"]))
+    .sub(Sub::new("i256", 250000, 2500000, sub_i256).tape(128, 400).require(&["result-at-type-boundary", "a:needs-high-limb", "b:needs-high-limb"]))
+    .sub(Sub::new("decimal", 250000, 2000000, sub_decimal).tape(256, 4000).require(&["null-slot-garbage-would-fail", "result-at-type-boundary", "outcome:must-err", "outcome:ok", "scales:differ", "scale:negative", "width:32", "width:64", "width:128", "width:256", "op:dec.neg"]))
+    .sub(Sub::new("float", 120000, 1000000, sub_float).tape(256, 6000).require(&["result:nan-inf-zero-or-subnormal", "type:Float16", "type:Float32", "type:Float64"]))
+    .sub(Sub::new("agg_grid", 0, 0, sub_agg_grid).enumerate(301 * N_PATTERNS * 8, 301 * N_PATTERNS * 40).require(&["more-than-64-values-with-nulls", "sum_checked:err", "sum_checked:ok", "float-minmax:total-order-with-nan"]))
+    .sub(Sub::new("agg_bytes", 15000, 150000, sub_agg_bytes).tape(256, 6000))
     .sub(Sub::new("bool_grid", 0, 0, sub_bool_grid).enumerate(201 * 4 * 16, 201 * 4 * 16 * 4).require(&["validity:LR", "validity:L-", "validity:-R", "validity:--"]))
-    .sub(Sub::new("is_null", 3000, 60000, sub_is_null).tape(256, 6000))
-    .sub(Sub::new("temporal", 12000, 300000, sub_temporal).tape(256, 3000).require(&["null-slot-garbage-would-fail", "outcome:must-err", "outcome:ok", "op:date.add.interval", "op:timestamp.add.interval", "op:timestamp.sub.interval", "op:interval*int64", "op:timestamp-timestamp"]))
-    .sub(Sub::new("temporal_neg", 1500, 30000, sub_temporal_neg).tape(128, 2000).require(&["outcome:must-err", "outcome:ok"]))
+    .sub(Sub::new("is_null", 15000, 150000, sub_is_null).tape(256, 6000))
+    .sub(Sub::new("bitwise", 20000, 200000, sub_bitwise).tape(256, 6000))
+    .sub(Sub::new("agg_encoded", 20000, 200000, sub_agg_encoded).tape(256, 6000).require(&["encoding:run-end", "encoding:dictionary"]))
+    .sub(Sub::new("temporal", 200000, 1500000, sub_temporal).tape(256, 3000).require(&["null-slot-garbage-would-fail", "outcome:must-err", "outcome:ok", "op:date.add.interval", "op:timestamp.add.interval", "op:timestamp.sub.interval", "op:interval*int64", "op:timestamp-timestamp"]))
+    .sub(Sub::new("repro_i256_to_i64", 0, 0, repro_i256_to_i64))
+    .sub(Sub::new("repro_decimal_rem_pow_wrapping", 0, 0, repro_decimal_rem_pow_wrapping))
+    .sub(Sub::new("repro_ree_sum_sliced", 0, 0, repro_ree_sum_sliced))
+    .sub(Sub::new("temporal_neg", 10000, 80000, sub_temporal_neg).tape(128, 2000).require(&["outcome:must-err", "outcome:ok"]))
     .run()
 }
